@@ -197,10 +197,15 @@ def c04(tier, replay):
 
 @check("C05")
 def c05(tier, replay):
-    return sem_check("C05", tier, replay, ["--no-ascii", "--fuel", "400000"], kinds_sem=("cost", "vm", "traceinv"),
+    # the fuel must cover the permitted bound (24 x reference cost + 64) of the family's heaviest legitimate search:
+    # about 240 000 steps in the quick tier, 7 million in the thorough one (exponential patterns on 5 characters)
+    fuel = "400000" if tier == "quick" else "20000000"
+    return sem_check("C05", tier, replay, ["--no-ascii", "--fuel", fuel], kinds_sem=("cost", "vm", "traceinv"),
                      want=("cost", "vm", "trace", "space"), families=["F2", "F9"] if tier == "quick" else ["F2", "F3", "F4", "F1", "F1b", "F9"],
                      trace_every=37 if tier == "quick" else 11, max_traces=2500 if tier == "quick" else 30000,
-                     use_fails=lambda f: True, extra=trace_notes, vm_every=10 if tier == "quick" else 1,
+                     # (a cost run that spent its fuel is judged by JudgeCost, which knows the bound)
+                     use_fails=lambda f: not (str(f.get("var", "")).startswith("cost_") and "fuel exhausted" in f["what"]),
+                     extra=trace_notes, vm_every=10 if tier == "quick" else 1,
                      rule="TLC enumerates the nested-quantifier family F2 (thorough: F1-F4) and all haystacks up to the bound; the runner "
                      "measures, through the step hook, instruction dispatches and the largest backtrack/thread stack of the whole "
                      "iteration on both executors and both pipelines under a fuel limit; TLC (JudgeCost.tla) computes the cost of the "
